@@ -26,6 +26,8 @@ type c12cfg struct {
 	template   string
 	noUsername bool
 	verify     bool
+	// 'signed' selection with no query-token issuer configured (the default): the issuer is then not constrained
+	noQueryIssuer bool
 }
 
 // tunnelReplay presents token and host on the websocket transport and returns
@@ -114,6 +116,7 @@ func streamC12(env *runEnv) {
 		{mode: "unsigned", hosts: []string{addrs[0], "127.0.0." + ph + ":" + port0}, split: true, template: "DOM\\{{ username }}", verify: false},
 		{mode: "any", hosts: []string{addrs[0]}, verify: true},
 		{mode: "signed", hosts: []string{addrs[0], addrs[1]}, verify: true},
+		{mode: "signed", hosts: []string{addrs[0], addrs[1]}, verify: true, noQueryIssuer: true},
 		{mode: "roundrobin", hosts: []string{addrs[1]}, template: "no-placeholder", verify: true},
 		{mode: "roundrobin", hosts: []string{addrs[1]}, noUsername: true, split: true, verify: true},
 	}
@@ -128,7 +131,7 @@ func streamC12(env *runEnv) {
 	for ci, cf := range cfgs {
 		dir := filepath.Join(env.workdir, fmt.Sprintf("c12-%d", ci))
 		gc := gwConfig{authSet: true, auth: []string{"openid"}, tlsDisable: true, hosts: cf.hosts, hostSelection: cf.mode,
-			providerURL: idp.srv.URL, clientID: idp.clientID, paaSignKey: sp(c12SignKey), queryKey: c12QueryKey, queryIssuer: "rdpgw-query",
+			providerURL: idp.srv.URL, clientID: idp.clientID, paaSignKey: sp(c12SignKey), queryKey: c12QueryKey, queryIssuer: map[bool]string{false: "rdpgw-query", true: ""}[cf.noQueryIssuer],
 			splitDomain: cf.split, userTemplate: cf.template, noUsername: cf.noUsername, verifyIP: bp(cf.verify), gatewayAddr: "gw.example.test:%PORT%"}
 		yaml, ev := gc.render("file")
 		g, ok := startGateway(dir, yaml, ev, false)
@@ -286,7 +289,7 @@ func streamC12(env *runEnv) {
 				tmpl = hx([]byte(cf.template))
 			}
 			env.count("c12.mode." + cf.mode + "." + rq.login)
-			env.emit("download", hx([]byte(cf.mode)), strings.Join(hs, ","), b01(cf.split)+b01(cf.noUsername)+b01(cf.verify), tmpl, hx([]byte(gwHost)),
+			env.emit("download", hx([]byte(cf.mode)), strings.Join(hs, ","), b01(cf.split)+b01(cf.noUsername)+b01(cf.verify)+b01(!cf.noQueryIssuer), tmpl, hx([]byte(gwHost)),
 				rq.login, hx([]byte(rq.user)), hx([]byte(rq.sub)), hx([]byte(at)), hx([]byte(clientIP)), hx([]byte(otherIP)), par, qt, strconv.Itoa(pickIdx),
 				strings.Join(hexAll(addrs), ","), obs)
 		}
